@@ -352,7 +352,8 @@ class Dut:
                 err = f'{type(e).__name__}: {str(e)[:60]}'
                 break
             ports = {n: w.get() for n, w in list(self.in_ports.items()) + list(self.out_ports.items())}
-            state = {k: getattr(self.obj, k) for k in self.state_names if hasattr(self.obj, k)}
+            state = {k: (int(getattr(self.obj, k)) if isinstance(getattr(self.obj, k), bool) else getattr(self.obj, k))
+                     for k in self.state_names if hasattr(self.obj, k)}
             out.append(dict(ports=ports, state=state, written=set(self.written)))
         return out, err
 
@@ -697,6 +698,19 @@ class WTernaryInCall(py4hw.Logic):
         self.s = (self.s + (2 if self.a.get() > self.b.get() else (1 if self.a.get() == self.b.get() else 0))) & 255
         self.r.prepare((self.a.get() if self.s > 3 else self.b.get()) + 1)
 
+class WBoolInit(py4hw.Logic):
+    def __init__(self, parent, name, a, b, r):
+        super().__init__(parent, name)
+        self.a = self.addIn('a', a)
+        self.b = self.addIn('b', b)
+        self.r = self.addOut('r', r)
+        self.holding = False
+        self.armed = True
+    def clock(self):
+        self.r.prepare(self.holding + self.armed * 16)
+        self.holding = self.a.get()
+        self.armed = (self.armed + self.a.get()) & 7
+
 class WValueTarget(py4hw.Logic):
     def __init__(self, parent, name, a, b, r):
         super().__init__(parent, name)
@@ -864,6 +878,8 @@ WITNESSES = [  # (class, history, expected finding id)
     ('WFloatConst', [{'a': 1, 'b': 0}], 'regression:refuse'),
     # regression (fixed f603896): a direct write to a wire's .value (attribute chain deeper than self.<name>) must be refused
     ('WValueTarget', [{'a': 5, 'b': 0}, {'a': 7, 'b': 0}], 'regression:refuse'),
+    # a state attribute initialised with the literal False / True that later holds multi-bit values: must stay an `integer`
+    ('WBoolInit', [{'a': 2, 'b': 0}, {'a': 5, 'b': 0}, {'a': 0, 'b': 0}, {'a': 255, 'b': 0}], 'regression:agree'),
     # the constructor assigns a state attribute several times: the `initial` block must leave the LAST constant
     ('WMultiInit', [{'a': 1, 'b': 0}, {'a': 0, 'b': 0}, {'a': 1, 'b': 0}, {'a': 1, 'b': 0}], 'regression:agree'),
     # regression (fixed edb114b): a guarded case followed by a case that could still match (here `case _`) must be refused ...
